@@ -21,7 +21,7 @@ Definition class_of (e : lerr) : iclass :=
   | ESyntax => CSyntax
   | EMissingParent => CMissingParent
   | ECircular => CCircular
-  | EOrphanBlock => CMsg
+  | EOrphanBlock | EBlockCycle => CMsg
   | ESuperOutside | ESuperTop => CRender
   | ENoLineage | EBlockNotFound | ENoTemplate => CMsg
   | EPanic => CPanic
@@ -96,7 +96,6 @@ Definition check_gen (fx : bool) (c : set_case) : bool :=
   let m := model_set_gen fx c in
   match sr_reg m, sc_reg c with
   | IOk _, IOk _ => renders_eqb (sr_renders m) (sc_renders c) && blocks_eqb (sr_blocks m) (sc_blocks c)
-  | IOk _, IErr CMsg => diverges m   (* a finalize that refuses D13-class sets (C11) is not a C04 difference *)
   | IErr a, IErr b => iclass_eqb a b
   | _, _ => false
   end.
